@@ -230,6 +230,18 @@ const EVS: [Ev; 7] = [Ev::PollOk, Ev::PollMissing, Ev::PollCorrupt, Ev::PollMism
 
 fn status_doc(version: &str) -> String {
     let detail = json!({"status": "RUNNING", "message": "ok"});
+    // every other healthy document is that of an idle agent: no connections yet, empty summaries
+    static N: std::sync::atomic::AtomicUsize = std::sync::atomic::AtomicUsize::new(0);
+    if N.fetch_add(1, std::sync::atomic::Ordering::Relaxed) % 2 == 1 {
+        return json!({
+            "timestamp": "2024-01-01T00:00:00Z",
+            "proxyAgentStatus": {"version": version, "status": "SUCCESS", "monitorStatus": detail, "keyLatchStatus": detail, "ebpfProgramStatus": detail,
+                "proxyListenerStatus": detail, "telemetryLoggerStatus": detail, "proxyConnectionsCount": 0},
+            "proxyConnectionSummary": [],
+            "failedAuthenticateSummary": []
+        })
+        .to_string();
+    }
     json!({
         "timestamp": "2024-01-01T00:00:00Z",
         "proxyAgentStatus": {"version": version, "status": "SUCCESS", "monitorStatus": detail, "keyLatchStatus": detail, "ebpfProgramStatus": detail,
@@ -386,7 +398,10 @@ fn monitor_layer(logdir: &str, st: &mut Stats) -> serde_json::Value {
             push_failures += text.matches("Failed to push event").count() as u64;
             let emitted = [
                 text.matches("Successfully read proxy agent aggregate status file").count() + text.matches("Error in reading proxy agent aggregate status file").count(),
-                text.matches("does not match proxy agent file version in extension").count() + text.matches("c20user").count(),
+                // a healthy document of an idle agent: the extension logs "proxy connection summary is empty" once per observation by itself;
+                // the notification (whose message is that same text) is one more occurrence
+                text.matches("does not match proxy agent file version in extension").count() + text.matches("c20user").count()
+                    + text.matches("proxy connection summary is empty").count().saturating_sub(1),
             ];
             let value: [Option<bool>; 2] = match ev {
                 Ev::PollOk => [Some(true), Some(true)],
